@@ -5,7 +5,7 @@ from .. import app, docprops, engine
 from ..runner import Run, h64
 from .c07 import CRASH_RE, alone_args
 
-PLAN = {"B2/211": 160, "B3/353": 100, "N1/43": 220, "W1/8": 180, "S2/4": 120, "S3": 40, "I4/389": 60, "X2/9": 40, "H4/5": 60, "P2/9": 60, "T4/37": 40}
+PLAN = {"B2/211": 160, "B3/353": 100, "N1/43": 220, "W1/8": 180, "S2/4": 120, "S3": 40, "I4/389": 60, "X2/9": 40, "H4/5": 60, "P2/9": 60, "T4/37": 40, "Z1/4": 150}
 EVALUATOR = "vp.props.c12:ev"
 RULE = (
     "documents = sub-lattices of the bounded universes that parse; per document every registered rule (46, md999 excluded) is scanned alone, then the "
